@@ -501,6 +501,15 @@ class Evaluator:
             if its is not None and all(isinstance(x, (Const, EnumVal)) for x in its) and isinstance(l, (Const, EnumVal)):
                 hit = any(self._same_concrete(l, x) for x in its)
                 return Const(hit != neg)
+
+            def _num(x):
+                if isinstance(x, EnumVal):
+                    return x.value
+                if isinstance(x, Scalar) and x.rf.is_const():
+                    return x.rf.const_value()
+                return None
+            if its is not None and _num(l) is not None and all(_num(x) is not None for x in its):
+                return Const(any(_num(l) == _num(x) for x in its) != neg)
             return self._bool_from(Test('opaque', key=f'{self.describe(l)} in {self.describe(r)}'), neg)
         # quantity (or any class with comparison dunders) on the left
         if isinstance(l, Inst):
